@@ -70,7 +70,7 @@ def tlc(module, args=(), cfg=None, env=None, workers=16, timeout=1800, extra_fil
             with open(os.path.join(scratch, name), 'w') as fh:
                 fh.write(text)
         cfgname = cfg or (module + '.cfg')
-        cmd = ['java', '-XX:+UseParallelGC'] + list(javaopts) + ['-cp', JAR, 'tlc2.TLC', '-workers', str(workers),
+        cmd = ['java', '-XX:+UseParallelGC', '-Djava.io.tmpdir=' + scratch] + list(javaopts) + ['-cp', JAR, 'tlc2.TLC', '-workers', str(workers),
                '-metadir', os.path.join(scratch, 'meta'), '-config', cfgname] + list(args) + [module + '.tla']
         e = dict(os.environ)
         e.update(env or {})
